@@ -272,8 +272,9 @@ func (qc queryChange) affectsQuery(q url.Values) (bool, error) {
 	if (beforeKey != nil && afterKey != nil && bytes.Equal(beforeKey, afterKey)) || (beforeKey == nil && afterKey == nil) {
 		return false, nil
 	}
-	wasMatch := qc.before != nil && bytes.HasPrefix(beforeKey, iq.KeyPrefix)
-	isMatch := qc.after != nil && bytes.HasPrefix(afterKey, iq.KeyPrefix)
+	// A value without key is not indexed, and matches no query
+	wasMatch := beforeKey != nil && bytes.HasPrefix(beforeKey, iq.KeyPrefix)
+	isMatch := afterKey != nil && bytes.HasPrefix(afterKey, iq.KeyPrefix)
 	if iq.FilterKeys != nil {
 		if wasMatch {
 			wasMatch = iq.FilterKeys(beforeKey)
